@@ -62,6 +62,13 @@ CHECKS['C06'] = dict(
     note='Trusted: CrossHair+z3, the from-scratch oracle in props/C06.py, a fake TestState/diagnoses store. Histories <=2 scalar (3 thorough) / <=2 dimensioned (3 thorough) assignments; int/None values; limits symbolic.',
     technique='symbolic execution (CrossHair/z3) of assignment histories vs from-scratch oracle',
     design='3/C06')
+CHECKS['C05'] = dict(
+    category='other',
+    text='Bounded symbolic execution (CrossHair/z3) of the real per-phase pipeline (TestExecutor._execute_phase, PhaseExecutor.execute_phase/_should_repeat/_execute_phase_once, PhaseExecutorThread._thread_proc, running_phase_context, PhaseState.finalize, diagnosers) '
+         'for one script-driven phase: per-invocation behaviour, options, measurement, diagnoser results, position and previous record are symbolic; the records, invocation count, diagnoser runs and executor return equal the decision table of the statement.',
+    note='Trusted: CrossHair+z3, synchronous thread stubs (bodies run inline), FakeClock, the decision table in props/C05.py. Timeout is a scripted behaviour. <=4 invocations, repeat_limit in {None,1..4}.',
+    technique='symbolic execution (CrossHair/z3) vs decision table',
+    design='3/C05')
 NA_REASON = {}
 DEFAULT_NA = 'check not built yet in this round (work in progress; see DESIGN.md section 6 for the plan)'
 
